@@ -404,6 +404,19 @@ func propC10(c *Ctx) {
 			runTplCase(c, ast, printTpl(ast), map[string]string{"name": "World", "a": "1"}, "edge-character")
 		}
 	}
+	// names are matched by their lower-case mappings (İ maps to i; final sigma, long s and the Kelvin sign have mappings
+	// of their own): exactly the pairs that agree under that mapping match
+	for _, pr := range [][2]string{{"dil", "DİL"}, {"DİL", "dil"}, {"σας", "ΣΑΣ"}, {"σασ", "ΣΑΣ"}, {"ſet", "SET"}, {"set", "ſET"}, {"k", "\u212a"}, {"\u212a", "K"}, {"straße", "STRASSE"}, {"ǆ", "ǅ"}, {"i", "I"}, {"ı", "I"}} {
+		for _, mk := range []func(n string) []*tnode{
+			func(n string) []*tnode { return []*tnode{{k: 't', text: "["}, {k: 'v', text: n, open: "{{" + n + "}}"}, {k: 't', text: "]"}} },
+			func(n string) []*tnode {
+				return []*tnode{{k: 's', text: n, open: "{{#" + n + "}}", close: "{{/" + n + "}}", kids: []*tnode{{k: 't', text: "in"}}}, {k: 'i', text: n, open: "{{^" + n + "}}", close: "{{/" + n + "}}", kids: []*tnode{{k: 't', text: "out"}}}}
+			},
+		} {
+			ast := mk(pr[0])
+			runTplCase(c, ast, printTpl(ast), map[string]string{pr[1]: "v"}, "case-mapping-names")
+		}
+	}
 	// accept / reject: every string over the lexeme alphabet up to a bounded length
 	maxL := 4
 	if c.Thorough {
